@@ -88,7 +88,13 @@ pub fn fixed_programs() -> Vec<(String, Vec<Stmt>)> {
         ("qubit-below-global", vec![Stmt::If { cond: tru(), then: blk(vec![qd("q")]), els: Some(blk(vec![qr("r", 2)])) }, Stmt::While { cond: tru(), body: blk(vec![qd("s")]) }, qd("t")]),
         ("gate-def-below-global", vec![Stmt::If { cond: tru(), then: blk(vec![Stmt::Gate { name: "g".into(), params: None, qubits: vec!["a".into()], body: vec![] }, Stmt::Def { name: "f".into(), params: vec![], ret: None, body: vec![] }]), els: None }, Stmt::Def { name: "outer".into(), params: vec![], ret: None, body: vec![Stmt::Gate { name: "g2".into(), params: None, qubits: vec!["a".into()], body: vec![] }, qd("inner")] }]),
         ("return-at-global", vec![Stmt::Return(None), Stmt::Return(Some(int(1))), Stmt::Def { name: "f".into(), params: vec![], ret: Some(Ty::Int(None)), body: vec![Stmt::If { cond: tru(), then: blk(vec![Stmt::Return(Some(int(1)))]), els: None }, Stmt::Return(Some(int(2)))] }]),
-        ("delay-designator", vec![qd("q"), decl(Ty::Duration, "d", Some(Expr::Timing("5".into(), false, "ns".into(), false))), decl(Ty::Int(None), "k", None), Stmt::Delay(int(5), vec![o("q")]), Stmt::Delay(Expr::Timing("5".into(), false, "ns".into(), false), vec![o("q")]), Stmt::Delay(id("d"), vec![o("q")]), Stmt::Delay(id("k"), vec![o("q")]), Stmt::Delay(Expr::Float("2.5".into()), vec![])]),
+        ("delay-designator", vec![qd("q"), decl(Ty::Duration, "d", Some(Expr::Timing("5".into(), false, "ns".into(), false))), decl(Ty::Int(None), "k", None), Stmt::Delay(int(5), vec![o("q")]), Stmt::Delay(Expr::Timing("5".into(), false, "ns".into(), false), vec![o("q")]), Stmt::Delay(id("d"), vec![o("q")]), Stmt::Delay(id("k"), vec![o("q")]),
+            decl(Ty::Bit(Some(bx(int(2)))), "c", None), qr("r", 2),
+            Stmt::Delay(Expr::IndexedId("c".into(), vec![Index::List(vec![IndexItem::Expr(int(0))])]), vec![o("q")]),
+            Stmt::Delay(Expr::IndexedId("r".into(), vec![Index::List(vec![IndexItem::Expr(int(1))])]), vec![o("q")]),
+            Stmt::Delay(Expr::Bin(BinOp::Eq, bx(id("k")), bx(int(1))), vec![o("q")]),
+            Stmt::Delay(Expr::Cast(Ty::Int(None), bx(id("k"))), vec![o("q")]),
+            Stmt::If { cond: tru(), then: blk(vec![Stmt::Delay(Expr::IndexedId("c".into(), vec![Index::List(vec![IndexItem::Expr(int(1))])]), vec![o("q")])]), els: None }]),
         ("switch-scopes", vec![decl(Ty::Int(None), "s", Some(int(1))), Stmt::Switch { control: id("s"), cases: vec![(vec![int(1), int(2)], vec![decl(Ty::Int(None), "a", None)]), (vec![int(3)], vec![decl(Ty::Float(None), "a", None), asg("a", Expr::Float("1.0".into()))])], default: Some(vec![decl(Ty::Bool, "a", None)]) }, asg("a", int(1))]),
         ("else-scope-separate", vec![Stmt::If { cond: tru(), then: blk(vec![decl(Ty::Int(None), "a", None)]), els: Some(blk(vec![decl(Ty::Float(None), "a", None), asg("a", Expr::Float("1.0".into()))])) }]),
         ("if-else-single-statements", vec![decl(Ty::Int(None), "x", None), decl(Ty::Int(None), "y", None), Stmt::If { cond: tru(), then: sgl(asg("x", Expr::Cast(Ty::Int(None), bx(int(1))))), els: Some(sgl(asg("y", Expr::Cast(Ty::Int(None), bx(int(2)))))) }, Stmt::If { cond: tru(), then: sgl(asg("x", Expr::Cast(Ty::Int(None), bx(int(3))))), els: Some(blk(vec![asg("y", Expr::Cast(Ty::Int(None), bx(int(4))))])) }, Stmt::If { cond: tru(), then: blk(vec![asg("x", Expr::Cast(Ty::Int(None), bx(int(5))))]), els: Some(sgl(asg("y", Expr::Cast(Ty::Int(None), bx(int(6)))))) }]),
